@@ -349,7 +349,11 @@ func Discrepancy(t TB, c interface{}, sig string, format string, args ...any) bo
 		st.Known["survey:"+sig]++
 		st.mu.Unlock()
 		if first {
-			fmt.Printf("SURVEY sig=%s :: %s\n", sig, msg)
+			cb, _ := json.Marshal(c)
+			if len(cb) > 1500 {
+				cb = cb[:1500]
+			}
+			fmt.Printf("SURVEY sig=%s :: %s :: CASE %s\n", sig, strings.SplitN(msg, "\n", 2)[0], cb)
 		}
 		return false
 	}
